@@ -105,7 +105,7 @@ public:
 
     //----------------------------------------------------------------------------------//
     FASTOR_HINT_INLINE void operator=(const TensorFixedViewExpr1D<Tensor<T,N>,fseq<F0,L0,S0>,1> &other_src) {
-#ifndef FASTOR_NO_ALIAS
+#if !(FASTOR_NO_ALIAS)
         if (_does_alias) {
             _does_alias = false;
             // Evaluate this into a temporary
@@ -165,7 +165,7 @@ public:
     }
     template<typename Derived, size_t DIMS, enable_if_t_<!requires_evaluation_v<Derived>,bool> = false>
     FASTOR_HINT_INLINE void operator=(const AbstractTensor<Derived,DIMS> &other) {
-#ifndef FASTOR_NO_ALIAS
+#if !(FASTOR_NO_ALIAS)
         if (_does_alias) {
             _does_alias = false;
             // Evaluate this into a temporary
@@ -226,7 +226,7 @@ public:
     }
     template<typename Derived, size_t DIMS, enable_if_t_<!requires_evaluation_v<Derived>,bool> = false>
     FASTOR_HINT_INLINE void operator+=(const AbstractTensor<Derived,DIMS> &other) {
-#ifndef FASTOR_NO_ALIAS
+#if !(FASTOR_NO_ALIAS)
         if (_does_alias) {
             _does_alias = false;
             // Evaluate this into a temporary
@@ -281,7 +281,7 @@ public:
     }
     template<typename Derived, size_t DIMS, enable_if_t_<!requires_evaluation_v<Derived>,bool> = false>
     FASTOR_HINT_INLINE void operator-=(const AbstractTensor<Derived,DIMS> &other) {
-#ifndef FASTOR_NO_ALIAS
+#if !(FASTOR_NO_ALIAS)
         if (_does_alias) {
             _does_alias = false;
             // Evaluate this into a temporary
@@ -336,7 +336,7 @@ public:
     }
     template<typename Derived, size_t DIMS, enable_if_t_<!requires_evaluation_v<Derived>,bool> = false>
     FASTOR_HINT_INLINE void operator*=(const AbstractTensor<Derived,DIMS> &other) {
-#ifndef FASTOR_NO_ALIAS
+#if !(FASTOR_NO_ALIAS)
         if (_does_alias) {
             _does_alias = false;
             // Evaluate this into a temporary
@@ -345,7 +345,7 @@ public:
             // Assign other to temporary
             tmp = other;
             // assign temporary to this
-            this->operator=(tmp);
+            this->operator*=(tmp);
             return;
         }
 #endif
@@ -391,7 +391,7 @@ public:
     }
     template<typename Derived, size_t DIMS, enable_if_t_<!requires_evaluation_v<Derived>,bool> = false>
     FASTOR_HINT_INLINE void operator/=(const AbstractTensor<Derived,DIMS> &other) {
-#ifndef FASTOR_NO_ALIAS
+#if !(FASTOR_NO_ALIAS)
         if (_does_alias) {
             _does_alias = false;
             // Evaluate this into a temporary
